@@ -559,6 +559,23 @@ func (t *Tracer) walkStructField(sv ssa.Value, field int, seen map[ssa.Value]boo
 	case *ssa.Const:
 		add(out, "const", "zero-value", sv)
 		return
+	case *ssa.Call:
+		// a struct built and returned by a function with a body: the field of
+		// what it returns
+		if g := s.Common().StaticCallee(); g != nil && len(g.Blocks) > 0 && depth < 12 {
+			n := 0
+			for _, ret := range ssau.ReturnsOf(g) {
+				if len(ret.Results) != 1 {
+					n = 0
+					break
+				}
+				n++
+				t.walkStructField(ssau.ResultValue(ret, 0), field, seen, out, depth+1)
+			}
+			if n > 0 {
+				return
+			}
+		}
 	}
 	name := ssau.NamedOf(sv.Type())
 	if st := structOf(sv); st != "" {
